@@ -228,6 +228,23 @@ pub fn specs(tier: &str, _prop: &str) -> Vec<ExpSpec> {
     v.push(ExpSpec::new(crate::c10::mk(16, 3, 0, 0, 5, "m16-3f"), alpha::mixed(512), if th { 4 } else { 3 }));
     v.push(ExpSpec::new(crate::c10::mk(32, 2, 0x81, 0, 5, "m32-2f-active1"), alpha::mixed(512), if th { 4 } else { 3 }));
     v.push(ExpSpec::new(crate::c10::mk(32, 3, 0x82, 0xA, 5, "m32-3f-active2-nibA"), alpha::mixed(512), if th { 4 } else { 3 }));
+    // the allocator really wraps: the hint points at the upper free clusters, the last cluster of the volume is not
+    // free, lower clusters are free (a chain that is being extended continues below the hint)
+    {
+        let c = vol::tiny_with(FatType::Fat32, 8, 16);
+        if let harness::dev::Base::Bytes(img) = &*c.base {
+            let mut img = img.clone();
+            let g = vol::geo_of(&img);
+            let frees: Vec<u32> = c.candidates.as_ref().unwrap().iter().copied().filter(|cl| vol::get_fat(&img, &g, 0, *cl) == 0).collect();
+            let last = *frees.last().unwrap();
+            vol::set_fat(&mut img, &g, last, g.bad_mark());
+            vol::set_fsinfo(&mut img, Some(frees.len() as u32 - 1), Some(frees[frees.len() - 3]));
+            let mut c2 = c.clone();
+            c2.base = std::sync::Arc::new(harness::dev::Base::Bytes(img));
+            c2.name = "t32-f7-wrap".into();
+            v.push(ExpSpec::new(c2, alpha::mixed(512), if th { 4 } else { 3 }));
+        }
+    }
     // single FAT copy
     for ft in [FatType::Fat12, FatType::Fat32] {
         if let Some(c) = geometry_cfg(ft, 512, 1, 1, 16, 8) {
@@ -438,6 +455,32 @@ pub fn fragmented_dir_specs(th: bool) -> Vec<ExpSpec> {
             Op::Remount,
         ];
         v.push(ExpSpec::new(c, alphabet, if th { 5 } else { 4 }).with_prefix(prefix));
+        // variant: the short entry of d/x is the LAST slot of the first directory cluster, and the directory goes on in a
+        // cluster that is not adjacent (victim sits between them)
+        let mut c = vol::tiny_with(ft, 12, 16);
+        c.name = format!("{}-fragdir-lastslot", c.name);
+        let mut prefix = vec![
+            Op::CreateDir { base: r, path: "d".into(), keep: None },
+            Op::CreateFile { base: r, path: "victim".into(), keep: Some(0) },
+            Op::WriteAll { h: 0, len: 512 },
+            Op::DropFile { h: 0 },
+        ];
+        for i in 1..=4 {
+            prefix.push(Op::CreateFile { base: r, path: format!("d/long-name-{i}.txt"), keep: None });
+        }
+        prefix.push(Op::CreateFile { base: r, path: "d/x".into(), keep: None });
+        prefix.push(Op::CreateFile { base: r, path: "d/long-name-5.txt".into(), keep: None });
+        let alphabet = vec![
+            Op::OpenFile { base: r, path: "d/x".into(), keep: Some(0) },
+            Op::Write { h: 0, len: 1 },
+            Op::Flush { h: 0 },
+            Op::DropFile { h: 0 },
+            Op::Rename { base: r, src: "d/x".into(), dst_base: r, dst: "d/y".into() },
+            Op::Remove { base: r, path: "d/x".into() },
+            Op::List { base: r, path: "d".into() },
+            Op::Remount,
+        ];
+        v.push(ExpSpec::new(c, alphabet, if th { 4 } else { 3 }).with_prefix(prefix));
     }
     v
 }
